@@ -15,11 +15,14 @@ PROPS = {
                      "malformed pairs of the IdP URL's query (bad percent-escape, semicolon) are dropped by net/url: 'kept' means the parameters url.ParseQuery yields"],
     ),
     "C16": dict(
-        model_files=["Base", "Escape", "SchemaDefs", "ConcDefs", "Generated", "CorrDiff", "PostForm"],
+        model_files=["Base", "Escape", "SchemaDefs", "ConcDefs", "Generated", "CorrDiff", "PostForm",
+                     "Xml", "GenPrelude", "GenPreludePost", "GenPost", "P_GenPost"],
         trusted_base=[KERNEL, GEN, HARNESS, ESCAPE,
+                      "translator unit GenPost (gen/unit_Post.go -> GenPost.v, combinators GenPreludePost.v, proofs P_GenPost.v): the bodies of build{Auth,Logout,LogoutResponse}BodyPostFromDocument, their exported wrappers and BuildAuthBodyPost are translated on every run and proved equal to PostForm.build_post_body for all inputs; trusted bindings: receiver = post_config, *template.Template = the template text (New/Parse/Must/Execute = tmpl_new/tmpl_parse/tmpl_must/tmpl_execute, Execute being PostForm.render appended to the buffer), anonymous all-string struct literal = association list in declaration order, bytes.Buffer = its contents, base64.StdEncoding.EncodeToString = Escape.base64_encode, Document.WriteToBytes = Section variable (oracle), a nil-able pointer handed to a callee that assumes non-nil = panic outcome",
                       "hand-written interpreter PostForm.v of the html/template subset used by the six generated template literals ({{.Field}} inside double-quoted attribute values; escaper chosen from the attribute name as attr.go/escape.go do) tied to html/template by whole-page byte comparison",
                       "scan_html (PostForm.v), the minimal HTML reader in which the structural theorems are stated, cross-checked on every run against the harness's independent hand-written reader; neither is a browser"],
         assumptions=["etree's serialisation of the document is an oracle (input bytes)",
+                     "C16_source_BuildAuthBodyPost_is_the_model: the results of BuildAuthRequestDocument / BuildAuthRequestDocumentNoSig are parameters of the shape 'a document or an error' (never nil beside a nil error: that shape is what P_GenBuild proves of buildAuthnRequest)",
                      "C16_fields_recovered: the relay state is recovered for NUL-free relay states (html/template maps U+0000 to U+FFFD; HTML cannot carry U+0000) - C16_relay_nul_refuted is the witness",
                      "the reader expands character references only: a browser additionally normalises CR/LF in attribute values and at form submission, for any HTML escaping",
                      "C16_action_is_configured_endpoint: endpoints with a scheme other than http/https/mailto are replaced by #ZgotmplZ by html/template (stated)"],
